@@ -42,17 +42,25 @@ def _mk(net, kind, after: bytes, status: int):
     return o
 
 
-async def _handover(flavor, kind, after, status, seg, sizes, read_body_first=False):
+async def _handover(flavor, kind, after, status, seg, sizes, read_body_first=False, write_fault=None):
     net = simnet.Net()
     net.log_events = False
     net.segmentation = seg
     o = _mk(net, kind, after, status)
+    if write_fault is not None:
+        # the server answers as soon as it has the head; one of the later writes of the request (body chunk, end of
+        # message) fails - httpcore deliberately ignores that and reads the response
+        o.early = True
+        net.faults[write_fault] = "WriteErrorSoft"
     pool = mk_pool(flavor, net)
     api = API(flavor, pool, net)
     info = {}
 
     async def scen():
-        if kind == "upgrade":
+        if kind == "upgrade" and write_fault is not None:
+            resp, cm = await api.open("POST", "http://o.test/ws", headers=[("Connection", "upgrade"), ("Upgrade", "hv")],
+                                      content=api.body([b"part-one", b"part-two"]))
+        elif kind == "upgrade":
             resp, cm = await api.open("GET", "http://o.test/ws", headers=[("Connection", "upgrade"), ("Upgrade", "hv")])
         else:
             resp, cm = await api.open("CONNECT", "http://o.test/", extensions={"target": b"dest.test:443"})
@@ -76,6 +84,9 @@ async def _handover(flavor, kind, after, status, seg, sizes, read_body_first=Fal
             got += d
         info["leading"] = bytes(got)
         info["reads"] = reads
+        if write_fault is not None:
+            await api.close(cm)
+            return True
         await api.ns_write(ns, b"ping", 5.0)
         live = bytearray()
         while len(live) < 9:
@@ -127,7 +138,7 @@ def run_case(case):
     after = bytes((i * 7 + 3) % 251 for i in range(n_after))
     viol = []
     cnt = {"handovers": 0, "oracle_bytes": 0, "oracle_live": 0, "oracle_not_reused": 0, "cuts": 0, "bytes_compared": 0,
-           "tunnel_runs": 0}
+           "tunnel_runs": 0, "write_fault_handovers": 0}
     sigs = set()
     sample = {}
 
@@ -176,6 +187,23 @@ def run_case(case):
             cut_at = sorted(keep)
         for c in cut_at:
             segs.append(("cut", Segmentation("cuts", [c])))
+        # a suppressed write error while the request was being sent must not cost the hand-over its leading bytes
+        if kind == "upgrade" and n_after:
+            for wf in (2, 3, 4):
+                for sizes in ([65536], [1], [3, 7]):
+                    out, info, net = await _handover(flavor, kind, after, status, Segmentation("all"), sizes, write_fault=wf)
+                    cnt["handovers"] += 1
+                    cnt["write_fault_handovers"] += 1
+                    ctx = {"kind": kind, "status": status, "after_len": n_after, "write_fault_at_op": wf, "max_bytes": sizes,
+                           "flavor": flavor, "reads": info.get("reads"), "outcome": repr(out)}
+                    if not net.fault_fired:
+                        continue
+                    sigs.add(f"{kind}|{status}|after{n_after}|write-fault{wf}|mb{sizes}")
+                    cnt["oracle_bytes"] += 1
+                    # (what the endpoint echoes for the body chunks that did arrive may follow the leading bytes)
+                    if info.get("status") == status and not (info.get("leading") or b"").startswith(after):
+                        v("handover-bytes-lost:after-suppressed-write-error", f"{len(info.get('leading') or b'')} of {n_after} "
+                          f"post-head bytes delivered after a write error while sending the request body", ctx)
         for name, seg in segs:
             if name == "cut":
                 sz_list = [size_sets[(seg.arg[0] + j) % len(size_sets)] for j in range(2)]
